@@ -13,6 +13,7 @@ From AV.Model Require Import Base Bytes Vec Ops Interp.
 From AV.Spec Require Import VecSpec.
 From AV.Proofs Require Import OwnProofs.
 From WIP Require Import WorldSpec.
+From WIP Require WorldProofs.
 Open Scope N_scope.
 
 Definition slot_xs (o : option avec) : list N := match o with Some a => a_xs a | None => [] end.
@@ -74,6 +75,7 @@ Definition leak_of (c : cfg) (st : astate) (nx : N) (o : op) : list N :=
           end
       | None => []
       end
+  | OWithCapacity dst bk _ => if resizable bk then new_leak c st dst bk else []
   | ONew dst bk =>
       (* a vector built into an occupied slot replaces what was there *)
       new_leak c st dst bk
@@ -506,6 +508,17 @@ Proof.
   rewrite (created_succ c nx Hnx). unfold drop_ev. rewrite Hdg. cbn [drops flat_map app]. perm_count.
 Qed.
 
+Lemma offer_wrong_own st nx v k r D L :
+  1 <= nx -> sp_offer_wrong c st nx v k = Some r ->
+  Permutation (created c nx) (vis st ++ D ++ L) ->
+  Permutation (created c (s_nx r)) (vis (s_st r) ++ (D ++ drops (s_evs r)) ++ (L ++ [])).
+Proof.
+  intros Hnx Hr Hinv. unfold sp_offer_wrong in Hr.
+  destruct (get_a v st); [|discriminate]. destruct (k =? c_ty c); [discriminate|]. injection Hr as <-.
+  cbn [panic_res s_nx s_st s_evs].
+  rewrite (created_succ c nx Hnx). unfold drop_ev. rewrite Hdg. cbn [drops flat_map app]. perm_count.
+Qed.
+
 Theorem step_own st nx o r D L :
   1 <= nx -> spec_step c st nx o = Some r ->
   Permutation (created c nx) (vis st ++ D ++ L) ->
@@ -515,16 +528,20 @@ Proof.
     try exact (look_own st nx _ r D L Hnx Hr Hinv).
   - (* ONew *)
     exact (new_own st nx dst bk r D L Hr Hinv).
+  - (* OWithCapacity *)
+    cbn [leak_of]. destruct (resizable bk); [|discriminate]. exact (new_own st nx dst bk r D L Hr Hinv).
   - (* ODropVec *)
     destruct (get_a v st) as [av|] eqn:Hg; [|discriminate]. injection Hr as <-.
     pose proof (vis_get_any st v) as Hv. rewrite Hg in Hv. cbn [slot_xs] in Hv.
     cbn [ok_res s_nx s_st s_evs leak_of]. rewrite Hdg, drops_map. perm_count.
   - (* OPush *)
-    destruct (fresh_src s); [|discriminate]. cbn [leak_of].
-    pose proof (offer_own st nx v None r D L Hnx Hr Hinv) as H. perm_count.
+    cbn [leak_of]. destruct (fresh_src s).
+    + pose proof (offer_own st nx v None r D L Hnx Hr Hinv) as H. perm_count.
+    + destruct a; [|discriminate]. destruct s; try discriminate; exact (offer_wrong_own st nx v k r D L Hnx Hr Hinv).
   - (* OInsert *)
-    destruct (fresh_src s); [|discriminate]. cbn [leak_of].
-    pose proof (offer_own st nx v (Some idx) r D L Hnx Hr Hinv) as H. perm_count.
+    cbn [leak_of]. destruct (fresh_src s).
+    + pose proof (offer_own st nx v (Some idx) r D L Hnx Hr Hinv) as H. perm_count.
+    + destruct a; [|discriminate]. destruct s; try discriminate; exact (offer_wrong_own st nx v k r D L Hnx Hr Hinv).
   - (* OPop *)
     pose proof (take_own st nx v TPop 0 k r D L (fun _ => eq_refl) Hnx Hr Hinv) as H.
     cbn [leak_of]. destruct k; exact H.
@@ -569,6 +586,12 @@ Proof.
   - exact (capacity_own st nx v (Some n) true r D L Hr Hinv).
   - exact (capacity_own st nx v None false r D L Hr Hinv).
   - exact (capacity_own st nx v None false r D L Hr Hinv).
+  - (* ODownWrong *)
+    destruct (sp_take c st nx v k (match k with TPop => 0 | _ => idx end) KDrop) as [r0|] eqn:E0; [|discriminate].
+    assert (Hp : k = TPop -> (match k with TPop => 0 | _ => idx end) = 0) by (intros ->; reflexivity).
+    pose proof (take_own st nx v k _ KDrop r0 D L Hp Hnx E0 Hinv) as H.
+    injection Hr as <-. cbn [leak_of].
+    destruct (s_out r0 =? 0); cbn [s_nx s_st s_evs]; exact H.
 Qed.
 End StepOwn.
 
@@ -586,24 +609,7 @@ Fixpoint hist_leaks (c : cfg) (st : astate) (nx : N) (ops : list op) : list N :=
   end.
 
 Lemma spec_nx_mono c st nx o r : spec_step c st nx o = Some r -> nx <= s_nx r.
-Proof.
-  intros H. destruct o; cbn [spec_step] in H; try discriminate;
-    try (apply sp_splice_inv in H; destruct H as (_ & _ & _ & H); unfold sp_splice in H; rewrite N.eqb_refl in H; cbn [negb] in H);
-    unfold sp_offer, sp_take, sp_take_elem, sp_capacity, sp_drain, sp_new, sp_clone, sp_look in H; cbv zeta in H;
-    repeat match type of H with
-    | Some _ = Some _ => injection H as <-
-    | None = Some _ => discriminate H
-    | context [match ?x with _ => _ end] => destruct x eqn:?
-    | context [if ?x then _ else _] => destruct x eqn:?
-    end; cbn [ok_res none_res panic_res s_nx]; try lia;
-    match goal with Hs : _ = inr ?s |- _ =>
-      repeat match type of Hs with
-      | inr _ = inr _ => injection Hs as <-
-      | inl _ = inr _ => discriminate Hs
-      | context [if ?x then _ else _] => destruct x eqn:?
-      end; cbn [none_res panic_res s_nx]; lia
-    end.
-Qed.
+Proof. apply WorldProofs.spec_nx_ge. Qed.
 
 Theorem history_own c ops : forall st nx rs D L,
   c_dg c = true -> 1 <= nx -> spec_run c st nx ops = Some rs ->
